@@ -80,6 +80,19 @@ impl Choices {
         }
     }
 
+    /// The first `n` raw PRNG outputs of every lane of run (seed, prop, run). Replaying it (`v % bound`)
+    /// reproduces the run exactly as long as it draws at most `n` values per lane. This is how the tape
+    /// of a run whose process died (abort, stack overflow, hang) is obtained without executing it.
+    pub fn raw_tape_from_seed(seed: u64, prop: &str, run: u64, n: usize) -> Vec<Vec<u64>> {
+        let base = mix(mix(seed, fnv1a(prop.as_bytes())), run);
+        (0..MAX_LANES as u64)
+            .map(|l| {
+                let mut g = Xoshiro::new(mix(base, l));
+                (0..n).map(|_| g.next()).collect()
+            })
+            .collect()
+    }
+
     pub fn from_tape(mut lanes: Vec<Vec<u64>>) -> Self {
         lanes.resize(MAX_LANES, Vec::new());
         Choices {
@@ -97,7 +110,9 @@ impl Choices {
         self.draws += 1;
         match &mut self.mode {
             Mode::Rng(gens) => {
-                let v = if bound == 1 { 0 } else { gens[lane].next() % bound };
+                // every draw consumes exactly one PRNG output (also for bound 1), so the raw output
+                // stream of a lane is a valid tape of the run: see `raw_tape_from_seed`
+                let v = gens[lane].next() % bound;
                 self.lanes[lane].push(v);
                 v
             }
